@@ -12,6 +12,10 @@ pub enum TypeKind {
     Plain,
     /// Constructors are relations of kind `Ctor`, listed in declaration order.
     Enum(Vec<RelId>),
+    /// `model Name { .. }` with its member predicates (relations of kind `Member`).
+    Model(Vec<RelId>),
+    /// The implicit morphism type `Mor(Name)` of a model type (API name `<Name>Mor`).
+    Mor(TypeId),
 }
 
 #[derive(Clone, Debug, PartialEq, Eq, Hash, Serialize, Deserialize)]
@@ -26,6 +30,11 @@ pub enum RelKind {
     Func,
     /// Constructor of the enum type `TypeId` (a function into that type).
     Ctor(TypeId),
+    /// Member predicate of the model type `TypeId`; column 0 is the model element.
+    Member(TypeId),
+    /// The implicit functions `dom` / `cod` : Mor(M) -> M of the model type `TypeId`.
+    Dom(TypeId),
+    Cod(TypeId),
 }
 
 /// A relation symbol. For functions and constructors `cols` is the *graph* arity:
@@ -39,7 +48,7 @@ pub struct RelDecl {
 
 impl RelDecl {
     pub fn is_func(&self) -> bool {
-        !matches!(self.kind, RelKind::Pred)
+        !matches!(self.kind, RelKind::Pred | RelKind::Member(_))
     }
     pub fn arg_types(&self) -> &[TypeId] {
         if self.is_func() {
@@ -131,7 +140,7 @@ impl Program {
     pub fn ctors(&self, t: TypeId) -> &[RelId] {
         match &self.types[t].kind {
             TypeKind::Enum(c) => c,
-            TypeKind::Plain => &[],
+            _ => &[],
         }
     }
     pub fn preds(&self) -> Vec<RelId> {
@@ -145,9 +154,11 @@ impl Program {
     pub fn definable(&self, r: RelId) -> bool {
         let d = &self.rels[r];
         match d.kind {
-            RelKind::Pred => false,
+            RelKind::Pred | RelKind::Member(_) => false,
             RelKind::Ctor(_) => true,
             RelKind::Func => !self.is_enum(d.result_type().unwrap()),
+            // define_<m>_mor_dom exists but would create model elements; histories do not use it
+            RelKind::Dom(_) | RelKind::Cod(_) => false,
         }
     }
     /// Does any rule use `!` in a `then` statement?
